@@ -79,7 +79,7 @@ func c18UserKey() *ethsecp256k1.PrivKey {
 // c18NewChain: InitChain with one genuine bonded validator (so that the exported staking
 // state can be imported again), a funded user, bond denom = mint denom = coinswap standard
 // denom = EVM denom = acanto, the given epochs_per_period of inflation, and the given (non-zero) genesis time.
-func c18NewChain(genTime time.Time, epp int64, ident string) *c18Chain {
+func c18NewChain(genTime time.Time, epp int64, ident string, extraEpochs ...string) *c18Chain {
 	ch := &c18Chain{a: c18NewApp(), priv: c18UserKey(), now: genTime, h: 1}
 	a := ch.a
 	ch.user = common.BytesToAddress(ch.priv.PubKey().Address().Bytes())
@@ -135,6 +135,15 @@ func c18NewChain(genTime time.Time, epp int64, ident string) *c18Chain {
 		inf.EpochIdentifier = ident
 	}
 	gs[inflationtypes.ModuleName] = cdc.MustMarshalJSON(&inf)
+
+	if len(extraEpochs) > 0 { // further epoch identifiers (e.g. spellings of "day" / "week" that differ only in letter case)
+		var ep epochstypes.GenesisState
+		cdc.MustUnmarshalJSON(gs[epochstypes.ModuleName], &ep)
+		for i, id := range extraEpochs {
+			ep.Epochs = append(ep.Epochs, epochstypes.EpochInfo{Identifier: id, Duration: time.Duration(6+18*i) * time.Hour})
+		}
+		gs[epochstypes.ModuleName] = cdc.MustMarshalJSON(&ep)
+	}
 
 	bz, err := json.Marshal(gs)
 	if err != nil {
